@@ -414,7 +414,7 @@ fn main() {
     );
 
     // 4. random strings
-    let n_str = check.tier.pick(200_000u32, 8_000_000);
+    let n_str = check.tier.pick(800_000u32, 8_000_000);
     pt::run(
         &check,
         "hash-random",
@@ -448,7 +448,7 @@ fn main() {
     );
 
     // 5. random cipher
-    let n_c = check.tier.pick(40_000u32, 2_000_000);
+    let n_c = check.tier.pick(160_000u32, 2_000_000);
     pt::run(
         &check,
         "cipher-random",
